@@ -34,6 +34,7 @@
 #include <stdlib.h>
 #include <stdbool.h>
 #include <string.h>
+#include <ctype.h>
 #include "qinternal.h"
 #include "utilities/qstring.h"
 #include "utilities/qencode.h"
@@ -202,8 +203,15 @@ size_t qurl_decode(char *str) {
                 break;
             }
             case '%': {
-                *pBinPt++ = _q_x2c(*(pEncPt + 1), *(pEncPt + 2));
-                pEncPt += 2;
+                if (isxdigit((unsigned char) *(pEncPt + 1))
+                        && isxdigit((unsigned char) *(pEncPt + 2))) {
+                    *pBinPt++ = _q_x2c(*(pEncPt + 1), *(pEncPt + 2));
+                    pEncPt += 2;
+                } else {
+                    // not an escape sequence (e.g. '%' at the end of the
+                    // string); keep it and never step over the terminator.
+                    *pBinPt++ = *pEncPt;
+                }
                 break;
             }
             default: {
@@ -444,7 +452,8 @@ size_t qhex_decode(char *str) {
     };
 
     char *pEncPt, *pBinPt = str;
-    for (pEncPt = str; *pEncPt != '\0'; pEncPt += 2) {
+    // an incomplete trailing digit is ignored; never step over the terminator.
+    for (pEncPt = str; *pEncPt != '\0' && *(pEncPt + 1) != '\0'; pEncPt += 2) {
         *pBinPt++ = (HEXMAPTBL[(unsigned char) (*pEncPt)] << 4)
                 + HEXMAPTBL[(unsigned char) (*(pEncPt + 1))];
     }
